@@ -192,7 +192,8 @@ def tablesJ : Json :=
         Json.arr #[Json.arr (ts.map Json.str).toArray, pairs mp]).toArray),
     ("FORMAT_PATTERNS", pairs FORMAT_PATTERNS), ("DEFAULT_PRIMITIVE", Json.str DEFAULT_PRIMITIVE),
     ("MAX_SAFE", Json.num (MAX_SAFE : Int)),
-    ("MIN_NORMAL_tiny_probe", Json.arr #[Json.bool (decTiny ⟨1, 308⟩), Json.bool (decTiny ⟨2, 308⟩), Json.bool (decTiny ⟨3, 308⟩)]),
+    ("MIN_NORMAL_tiny_probe", Json.arr #[Json.bool (decTiny ⟨1, 308⟩), Json.bool (decTiny ⟨2, 308⟩), Json.bool (decTiny ⟨3, 308⟩),
+      Json.bool (decTiny ⟨22250738585072013830902327172, 336⟩)]),
     ("constraintOrder", Json.arr (Utv.Gen.Tables.constraintOrder.map Json.str).toArray)]
 
 /-- strings a validation run asks the oracle about -/
